@@ -23,7 +23,7 @@ import (
 type c06Case struct {
 	Local   int    `json:"local_hold"`
 	Remote  int    `json:"remote_hold"`
-	Traffic string `json:"remote_traffic"` // silent | ka-third | ka-just-before | ka-at-expiry | upd-half | alternate | silent-openconfirm
+	Traffic string `json:"remote_traffic"` // silent | ka-third | ka-just-before | ka-at-expiry | upd-half | alternate | silent-openconfirm | upd-slow-handler | pair-late
 	Writes  string `json:"local_writes"`   // none | quarter | burst
 	Inbound bool   `json:"inbound"`
 	Legacy  bool   `json:"legacy_timers"`
@@ -208,6 +208,29 @@ func c06Run(cs c06Case, ch vrt.Chooser, trace bool) (*world.World, *vrt.Exec, *c
 				if H > 0 {
 					vrt.Sleep(H - 200*time.Millisecond)
 					send(wire.Update([]byte("SLOW")))
+				}
+			case "pair-late":
+				// two messages less than a second apart, then silence until just before the hold time has passed
+				// since the SECOND one (a hold timer restarted only for the first of a close pair expires early);
+				// the gap between the two grows: 0.9 s, 0.5 s, 1 ns
+				for i, gap := range []time.Duration{900 * time.Millisecond, 500 * time.Millisecond, time.Nanosecond} {
+					if H == 0 {
+						break
+					}
+					vrt.Sleep(gap)
+					var ok bool
+					if i%2 == 0 {
+						ok = send(wire.Update([]byte{0xee, byte(i)}))
+					} else {
+						ok = send(wire.Keepalive())
+					}
+					if !ok {
+						break
+					}
+					vrt.Sleep(H - time.Nanosecond)
+					if !send(wire.Keepalive()) {
+						break
+					}
 				}
 			case "alternate":
 				for i := 0; H > 0 && i < 6; i++ {
@@ -439,7 +462,7 @@ func c06Judge(cs c06Case, w *world.World, e *vrt.Exec, o *c06Obs) (string, strin
 }
 
 var c06Holds = []int{0, 3, 4, 9, 10, 30, 90, 65535}
-var c06Traffic = []string{"silent", "ka-third", "ka-just-before", "ka-at-expiry", "upd-half", "alternate", "silent-openconfirm", "upd-slow-handler"}
+var c06Traffic = []string{"silent", "ka-third", "ka-just-before", "ka-at-expiry", "upd-half", "alternate", "silent-openconfirm", "upd-slow-handler", "pair-late"}
 var c06Writes = []string{"none", "quarter", "burst", "at-tick"}
 
 func c06Eval(c *harness.Ctx, cs c06Case) {
@@ -729,7 +752,7 @@ func c06Scn(cs c06Case, bound int) *Scn {
 func init() {
 	harness.Register(&harness.Check{
 		Property: "C06", Level: "exploration", NeedsConc: true, QuickS: 200, ThoroughS: 1200,
-		Rule:   "grid of local hold x remote hold over {0,3,4,9,10,30,90,65535}^2 x remote traffic {silent, KEEPALIVE every H/3, every H-1ns, exactly at H, UPDATE every H/2, alternating at 2H/3, silent in OpenConfirm} x local writes {none, every H/4, burst} x both Go timer-channel semantics, each one run of the real FSM in virtual time over 3H (10x65535 s for H=0) with time-stamped observations; plus all schedules within the delay bound (1 quick / 2 thorough) for 4 hold pairs x traffic x writes; plus the judged session as the second session of the peer after one that negotiated another value, and a handler that is slow around the expiry instant; all cases non-trivial and distinct",
+		Rule:   "grid of local hold x remote hold over {0,3,4,9,10,30,90,65535}^2 x remote traffic {silent, KEEPALIVE every H/3, every H-1ns, exactly at H, UPDATE every H/2, alternating at 2H/3, silent in OpenConfirm, pairs of messages 0.9 s / 0.5 s / 1 ns apart followed by silence of H-1ns} x local writes {none, every H/4, burst} x both Go timer-channel semantics, each one run of the real FSM in virtual time over 3H (10x65535 s for H=0) with time-stamped observations; plus all schedules within the delay bound (1 quick / 2 thorough) for 4 hold pairs x traffic x writes; plus the judged session as the second session of the peer after one that negotiated another value, and a handler that is slow around the expiry instant; all cases non-trivial and distinct",
 		Assume: []string{"virtual clock: computation takes zero time; timers due at the same instant fire in either order only under schedule exploration", "handlers return in zero time", "cadence limit hold/3 + 1 s"},
 		Run:    c06Check,
 		Replay: func(c *harness.Ctx, raw json.RawMessage) {
